@@ -25,6 +25,7 @@ import (
 	"github.com/NethermindEth/juno/db"
 	"github.com/NethermindEth/juno/db/memory"
 	"github.com/NethermindEth/juno/db/pebblev2"
+	"github.com/NethermindEth/juno/encoder"
 	_ "github.com/NethermindEth/juno/encoder/registry"
 	"github.com/NethermindEth/juno/feed"
 	"github.com/NethermindEth/juno/pruner"
@@ -87,7 +88,11 @@ func timestamp(n int, young bool) uint64 {
 
 // blockSpec: every block has the same SHAPE (same number and kinds of rows the pruner deletes), so
 // that a byte threshold of 1.5 block-delete-sizes rotates the prune batch every two blocks.
-func blockSpec(seed int64, n, v int, young bool) chainkit.BlockSpec {
+// bare: a block without any transaction (no lookups to delete, empty bloom, empty receipts) — only
+// where the batch threshold is not calibrated on uniform blocks.
+func bare(n int, uniform bool) bool { return !uniform && n%7 == 5 }
+
+func blockSpec(seed int64, n, v int, young, uniform bool) chainkit.BlockSpec {
 	fixedClasses()
 	g := chainkit.NewGen(seed*1_000_003 + int64(n)*101 + int64(v))
 	d := chainkit.EmptyDiff()
@@ -116,7 +121,11 @@ func blockSpec(seed int64, n, v int, young bool) chainkit.BlockSpec {
 	}
 	var txs []core.Transaction
 	var rcs []*core.TransactionReceipt
-	for i, k := range []string{"invoke3", "l1handler"} {
+	kinds := []string{"invoke3", "l1handler"}
+	if bare(n, uniform) {
+		kinds = nil
+	}
+	for i, k := range kinds {
 		tx := g.Tx(k)
 		txs = append(txs, tx)
 		var evs []*core.Event
@@ -127,6 +136,23 @@ func blockSpec(seed int64, n, v int, young bool) chainkit.BlockSpec {
 	}
 	return chainkit.BlockSpec{Version: versions[n%len(versions)], Timestamp: timestamp(n, young),
 		Diff: d, Classes: classes, Txs: txs, Receipts: rcs}
+}
+
+// ------------------------------------------------------------------ poisoning store
+// poisonStore hands every Get callback a private copy of the value and scribbles over it when the
+// callback returns: a reader that keeps (part of) the lent buffer instead of copying it ends up
+// with garbage, which the comparison with the twin then sees.
+type poisonStore struct{ db.KeyValueStore }
+
+func (p poisonStore) Get(k []byte, cb func([]byte) error) error {
+	return p.KeyValueStore.Get(k, func(v []byte) error {
+		c := append([]byte(nil), v...)
+		err := cb(c)
+		for i := range c {
+			c[i] = 0xA5
+		}
+		return err
+	})
 }
 
 // ------------------------------------------------------------------ gated pruner service
@@ -321,6 +347,7 @@ type world struct {
 	young    map[int]bool // by number: the current block of that number is young
 	svc      *svc
 	batch    int
+	retained []kept
 
 	crashedInPrune bool
 }
@@ -346,7 +373,7 @@ func newWorld(c consts, seed int64, newState bool, backend string) (*world, erro
 		w.raw = memory.New()
 	}
 	w.twin = chainkit.NewNode(memory.New(), newState)
-	w.fk = faultkv.Wrap(w.raw)
+	w.fk = faultkv.Wrap(poisonStore{w.raw})
 	if err := w.bootNode(); err != nil {
 		return nil, err
 	}
@@ -475,7 +502,7 @@ func (w *world) restart() error {
 		}
 		w.svc = nil
 	}
-	w.fk = faultkv.Wrap(w.raw)
+	w.fk = faultkv.Wrap(poisonStore{w.raw})
 	if err := w.bootNode(); err != nil {
 		return err
 	}
@@ -506,7 +533,7 @@ func (w *world) nextBlock(young bool) (bk, *chainkit.Built, error) {
 			w.ver[n]++
 			continue
 		}
-		b, err := w.twin.Build(blockSpec(w.seed, id.N, id.V, young))
+		b, err := w.twin.Build(blockSpec(w.seed, id.N, id.V, young, w.c.PruneBatch == 2))
 		if err != nil {
 			return id, nil, fmt.Errorf("twin build %v: %w", id, err)
 		}
@@ -708,6 +735,11 @@ func (w *world) project() post {
 			}
 		}
 		switch {
+		case want == 0:
+			// a block without transactions has no lookup rows: the family follows the body row
+			if len(p.Txs) > 0 && p.Txs[len(p.Txs)-1] == n {
+				p.Txl = append(p.Txl, n)
+			}
 		case have == want:
 			p.Txl = append(p.Txl, n)
 		case have > 0:
@@ -753,6 +785,64 @@ func (w *world) memFloor() int {
 		}
 	}
 	return int(h) + 1
+}
+
+// ------------------------------------------------------------------ retained results
+// Values handed out by the readers must not change afterwards (pooled objects, shared maps,
+// aliased buffers): each is kept together with its encoding taken at return time and re-encoded
+// after every later operation.
+type kept struct {
+	what string
+	val  any
+	enc  string
+}
+
+func encOf(v any) string { return fmt.Sprintf("%+v", reflectDeref(v)) }
+
+// reflectDeref renders pointers by value, recursively (fmt prints nested pointers as addresses).
+func reflectDeref(v any) any {
+	b, err := encoder.Marshal(v)
+	if err == nil {
+		return b
+	}
+	return fmt.Sprintf("%#v", v)
+}
+
+func (w *world) keep(what string, v any, err error) {
+	if err != nil || v == nil {
+		return
+	}
+	w.retained = append(w.retained, kept{what, v, encOf(v)})
+}
+
+// retain reads the head and the oldest retained block through the node and keeps the results.
+func (w *world) retain() {
+	h, err := w.node.BC.Height()
+	if err != nil || len(w.retained) > 60 {
+		return
+	}
+	o, _ := pruner.OldestRetainedBlock(w.raw)
+	for _, n := range []uint64{h, o} {
+		hd, e1 := w.node.BC.BlockHeaderByNumber(n)
+		w.keep(fmt.Sprintf("header(%d)", n), hd, e1)
+		su, e2 := w.node.BC.StateUpdateByNumber(n)
+		w.keep(fmt.Sprintf("state-update(%d)", n), su, e2)
+		txs, rcs, e3 := w.node.BC.TransactionsAndReceiptsByBlockNumber(n)
+		for i := range txs {
+			w.keep(fmt.Sprintf("tx(%d,%d)", n, i), txs[i], e3)
+			w.keep(fmt.Sprintf("receipt(%d,%d)", n, i), rcs[i], e3)
+		}
+		cm, e4 := w.node.BC.BlockCommitmentsByNumber(n)
+		w.keep(fmt.Sprintf("commitments(%d)", n), cm, e4)
+	}
+}
+
+func (w *world) checkRetained(add adder) {
+	for _, k := range w.retained {
+		if encOf(k.val) != k.enc {
+			add("aliasing:"+strings.SplitN(k.what, "(", 2)[0], fmt.Sprintf("%s returned earlier changed after later calls", k.what))
+		}
+	}
 }
 
 // ------------------------------------------------------------------ monitors (twin = oracle)
@@ -1002,7 +1092,9 @@ func (w *world) evaluate(wantFloor int, floorBound bool) []violation {
 		want := []bk{}
 		for n := oldest; n <= th; n++ {
 			h, _ := w.twin.BC.BlockHeaderHashByNumber(n)
-			want = append(want, w.byHash[*h])
+			if id := w.byHash[*h]; len(w.built[id].Block.Transactions) > 0 {
+				want = append(want, id)
+			}
 		}
 		if !reflect.DeepEqual(append([]bk{}, found...), want) {
 			add("events:mismatch", fmt.Sprintf("got %v want %v", found, want))
@@ -1013,5 +1105,7 @@ func (w *world) evaluate(wantFloor int, floorBound bool) []violation {
 			add("events:below-floor-not-reported-pruned", fmt.Sprintf("query from block %d: %v", oldest-1, err))
 		}
 	}
+	w.checkRetained(add)
+	w.retain()
 	return out
 }
